@@ -4,7 +4,7 @@ For every hereditarily satisfiable term of the universe (declared, combined, sub
 every RNG script within the deviation bound (whole tree when small) -> fake() must return and
 the value must validate cleanly (real validator) and be accepted by the reference model.
 """
-from d42 import fake, validate
+from d42 import fake, optional, validate
 
 from .. import e2
 from .. import model as M
@@ -105,13 +105,36 @@ def minimise(rng, t, rawkind, b):
     return best
 
 
+def second_instances():
+    """Other, differently configured instances of the generation classes exist in the process and
+    have been used (public constructors; what they produce is not judged).  fake() uses the
+    module-level default instances and must be unaffected."""
+    from d42 import schema
+    from d42.generation import Generator, Random, RegexGenerator
+    rg = RegexGenerator(Random(), alphabet={"digits": "0123456789abcdef", "word": "ab-", "letters": "ab~"}, max_repeat=3)
+    g = Generator(Random(), rg)
+    for sch in (schema.str.regex("\\d\\w+[^a]"), schema.list(schema.str.alphabet("xy")).len(1),
+                schema.dict({"a": schema.int, optional("b"): schema.float.precision(1)})):
+        try:
+            sch.__accept__(g)
+        except Exception:  # noqa: BLE001
+            pass
+
+
 def worker(shard, nshards, tier, seed):
     acc = Acc()
     b = BOUNDS[tier]
     rng = e2.Scripted(seed)
     with e2.installed(rng):
         e2.self_test(rng)
-        for i, t in shard_items(terms_for(tier), shard, nshards):
+        mine = [(i, t, False) for i, t in shard_items(terms_for(tier), shard, nshards)]
+        # ... and once more (D = 1) after second instances of the generator classes were used;
+        # last in the shard, so that everything above runs in a process that never had any
+        mine += [(i, t, True) for i, t, _ in mine]
+        for i, t, second in mine:
+            if second:
+                second_instances()
+                b = dict(BOUNDS[tier], D=1, full_cap=200)
             if not eligible(t):
                 acc.count("skipped_not_hsat")
                 continue
@@ -119,7 +142,7 @@ def worker(shard, nshards, tier, seed):
             if s is None:
                 acc.count("build_failed")
                 continue
-            acc.count("schemas")
+            acc.count("schemas_after_second_instances" if second else "schemas")
             info, found, n, outcomes = examine(rng, t, s, b)
             acc.count("executions", n)
             acc.count("exhaustive_schemas", int(info["exhaustive"]))
@@ -135,8 +158,9 @@ def worker(shard, nshards, tier, seed):
                 acc.violation(f"C01|{rawkind}|{show(mt)}",
                               {"term": src(t), "term_show": show(t), "minimal": show(mt),
                                "script": [list(x) for x in script], "detail": detail,
-                               "kind": rawkind, "tier": tier, "seed": seed})
-            if i % 61 == 0:
+                               "kind": rawkind, "tier": tier, "seed": seed,
+                               "second_instances": second})
+            if i % 61 == 0 and not second:
                 acc.sample({"schema": show(t), "executions": n, "distinct_values": len(outcomes),
                             "whole_tree": info["exhaustive"], "max_points": info["max_points"]})
     return acc
@@ -157,6 +181,7 @@ def run(tier, seed):
                 "leaves); non-trivial = schema with more than one distinct generated value",
         "exhaustive": not acc.caps,
         "bounds": dict(b, tier=tier, max_choice_points_seen=acc.n["max_choice_points"]),
+        "schemas_again_after_second_generator_instances": acc.n["schemas_after_second_instances"],
     }
     return acc, cov, ["RNG answers per draw: both ends, their neighbours, the middle, one seeded "
                       "interior point (choice over <= 4 items: every item)",
@@ -172,6 +197,9 @@ def replay(case):
     rng = e2.Scripted(case.get("seed", 0))
     with e2.installed(rng):
         b = BOUNDS[case.get("tier", "quick")]
+        if case.get("second_instances"):
+            second_instances()
+            b = dict(b, D=1, full_cap=200)
         _, found, _, _ = examine(rng, t, s, b)
         if case["kind"] in found:
             return f"C01|{case['kind']}|{case['minimal']}"
